@@ -1,7 +1,184 @@
 import KitModel.Go.Prelude
-/-! Driver for property C05: `kitdrv C05` reads op lines on stdin, one answer line per input line. -/
+import KitModel.CronSched
+/-!
+Driver for property C05: `kitdrv C05` reads the observable trace of one execution of the real
+`cron.Cron` (one event per line) and answers, per line, whether the model
+(`Kit.CronSched.step`) accepts the trace so far.  Acceptance is a state-set simulation: the set
+of model states compatible with the trace is propagated, closing under the internal labels
+(`boot`, `refresh`, `arm`, `wake`, `ctxWait k`) after every event.
+
+Lines:
+  case scheds=<d;d;…> t0=<n>     d ::= p:<period>:<offset> | z | f:<period>:<offset>:<limit>
+  advance t=<n> | add sid=<n> id=<n> | remove id=<n> | entries r=<id:next:prev,…> | start | stop
+  armed timer=<0|1> | woke w=<n> | quiet            (assertions from the hooks / the harness)
+  begin id=<n> c=<n> | done id=<n> c=<n> | ctx k=<n> done=<0|1> | end
+Answers: `ok n=<states>` | `reject <why> …` | `skip` (after a reject, until the next `case`).
+-/
 namespace Driver.C05
+open Kit Kit.CronSched
+
+inductive SchedDesc where
+  | periodic (p o : Nat)
+  | zero
+  | finite (p o lim : Nat)
+
+def periodicNext (p o t : Nat) : Nat :=
+  if t < o then o else o + ((t - o) / p + 1) * p
+
+def SchedDesc.next : SchedDesc → Nat → Nat
+  | .periodic p o, t => periodicNext p o t
+  | .zero, _ => 0
+  | .finite p o lim, t => let x := periodicNext p o t; if x ≤ lim then x else 0
+
+def parseDesc (s : String) : Option SchedDesc :=
+  match s.splitOn ":" with
+  | ["z"] => some .zero
+  | ["p", p, o] => do
+    let p ← p.toNat?; let o ← o.toNat?
+    if p = 0 ∨ o = 0 then none else some (.periodic p o)
+  | ["f", p, o, l] => do
+    let p ← p.toNat?; let o ← o.toNat?; let l ← l.toNat?
+    if p = 0 ∨ o = 0 then none else some (.finite p o l)
+  | _ => none
+
+def mkScheds (ds : Array SchedDesc) : Scheds := fun sid t =>
+  match ds[sid]? with
+  | some d => d.next t
+  | none => 0
+
+structure Sim where
+  scheds : Array SchedDesc := #[]
+  states : List State := []
+  dead : Bool := true
+
+def strip (s : State) : State := { s with log := [] }
+
+def insertNew (acc : List State) (s : State) : List State :=
+  if acc.contains s then acc else acc ++ [s]
+
+/-- τ-closure (all states reachable by internal labels, the given ones included). -/
+def closure (S : Scheds) : Nat → List State → List State → List State
+  | 0, acc, _ => acc
+  | fuel + 1, acc, frontier =>
+    match frontier with
+    | [] => acc
+    | _ =>
+      let succs := frontier.flatMap fun s =>
+        (internalLabels s).filterMap fun l => (step S s l).map strip
+      let fresh := succs.foldl (fun (fr : List State) s =>
+        if acc.contains s ∨ fr.contains s then fr else fr ++ [s]) []
+      closure S fuel (acc ++ fresh) fresh
+
+def close (S : Scheds) (ss : List State) : List State :=
+  let ss := ss.foldl insertNew []
+  closure S 64 ss ss
+
+def applyLabel (S : Scheds) (ss : List State) (l : Label) (post : State → Bool := fun _ => true) : List State :=
+  close S (ss.filterMap fun s => match step S s l with
+    | some s' => if post s' then some (strip s') else none
+    | none => none)
+
+def quiescent (s : State) : Bool :=
+  (match s.pc with
+   | .parked none => true
+   | .parked (some tm) => tm.fired.isNone
+   | .off => true
+   | _ => false)
+  && s.jobs.all (fun j => j.st != .launched)
+
+def showEntry (e : Entry) : String := s!"{e.id}:{e.next}:{e.prev}"
+
+def insertById (e : Entry) : List Entry → List Entry
+  | [] => [e]
+  | x :: xs => if e.id ≤ x.id then e :: x :: xs else x :: insertById e xs
+
+def showSnapshot (es : List Entry) : String :=
+  ",".intercalate ((es.foldr insertById []).map showEntry)
+
+def showPc : Pc → String
+  | .off => "off" | .boot => "boot" | .arm => "arm"
+  | .refresh none => "refresh" | .refresh (some (id, sid)) => s!"refresh({id},{sid})"
+  | .parked none => "parked(-)"
+  | .parked (some tm) => s!"parked(at={tm.armedAt},d={tm.deadline},fired={tm.fired})"
+
+def showJob (j : Job) : String :=
+  s!"{j.eid}@{j.act}/{j.wake}" ++ (match j.st with | .launched => "L" | .begun c => s!"B{c}")
+
+def showState (s : State) : String :=
+  s!"[clk={s.clock} run={s.running} now={s.now} pc={showPc s.pc} es={showSnapshot s.entries} " ++
+  s!"jobs={",".intercalate (s.jobs.map showJob)} ctxs={s.ctxs.length}]"
+
+def showStates (ss : List State) : String := " | ".intercalate ((ss.take 4).map showState)
+
+def indicesWhere (js : List Job) (p : Job → Bool) : List Nat :=
+  (List.range js.length).filter fun i => match js[i]? with
+    | some j => p j
+    | none => false
+
+def handle (sim : Sim) (raw : String) : Sim × String :=
+  let ln := parseLine raw
+  if ln.op == "case" then
+    match (ln.get? "scheds"), ln.nat? "t0" with
+    | some ds, some t0 =>
+      match ((ds.splitOn ";").filter (· ≠ "")).mapM parseDesc with
+      | some l => ({ scheds := l.toArray, states := [init t0], dead := false }, "ok n=1")
+      | none => ({ sim with dead := true, states := [] }, "reject bad-scheds")
+    | _, _ => ({ sim with dead := true, states := [] }, "reject bad-case-line")
+  else if sim.dead then (sim, "skip")
+  else
+    let S := mkScheds sim.scheds
+    let before := sim.states
+    let next : Option (List State) :=
+      match ln.op with
+      | "advance" => (ln.nat? "t").map fun t => applyLabel S before (.advance t)
+      | "add" =>
+        match ln.nat? "sid", ln.nat? "id" with
+        | some sid, some id => some (applyLabel S before (.add sid) (fun s => s.nextID == id))
+        | _, _ => none
+      | "remove" => (ln.nat? "id").map fun id => applyLabel S before (.remove id)
+      | "entries" =>
+        (ln.get? "r").map fun r =>
+          applyLabel S (before.filter fun s => showSnapshot (snapshotOf s) == r) .snapshot
+      | "start" => some (applyLabel S before .start)
+      | "stop" => some (applyLabel S before .stop)
+      | "armed" =>
+        (ln.nat? "timer").map fun b => before.filter fun s =>
+          match s.pc with
+          | .parked tm => tm.isSome == (b == 1)
+          | _ => false
+      | "woke" =>
+        (ln.nat? "w").map fun w => before.filter fun s => s.pc == .arm && s.now == w
+      | "quiet" => some (before.filter quiescent)
+      | "begin" =>
+        match ln.nat? "id", ln.nat? "c" with
+        | some id, some c => some (close S (before.flatMap fun s =>
+            if s.clock == c then
+              (indicesWhere s.jobs fun j => j.eid == id && j.st == .launched).filterMap fun i =>
+                (step S s (.jobBegin i)).map strip
+            else []))
+        | _, _ => none
+      | "done" =>
+        match ln.nat? "id", ln.nat? "c" with
+        | some id, some c => some (close S (before.flatMap fun s =>
+            (indicesWhere s.jobs fun j => j.eid == id && j.st == .begun c).filterMap fun i =>
+              (step S s (.jobDone i)).map strip))
+        | _, _ => none
+      | "ctx" =>
+        match ln.nat? "k", ln.nat? "done" with
+        | some k, some d =>
+          some (if d == 1 then before.filter fun s => s.ctxs[k]? == some .done else before)
+        | _, _ => none
+      | "end" => some before
+      | _ => none
+    match next with
+    | none => ({ sim with dead := true, states := [] }, s!"reject unparsable-line {raw.trimAscii.toString}")
+    | some [] =>
+      ({ sim with dead := true, states := [] },
+       s!"reject no-model-state-accepts event={raw.trimAscii.toString} before={showStates before}" ++
+       (if ln.op == "entries" then s!" model-entries={" / ".intercalate (before.map fun s => showSnapshot (snapshotOf s))}" else ""))
+    | some ss => ({ sim with states := ss }, s!"ok n={ss.length}")
+
 def main (_args : List String) : IO UInt32 := do
-  IO.eprintln "kitdrv: C05 has no model driver yet"
-  return 2
+  lineLoop handle ({} : Sim)
+  return 0
 end Driver.C05
